@@ -200,7 +200,7 @@ def _run_case(case):
         bound = K
     if endless:
         max_calls = bound + 64
-    touch = {'raw': ('body',), 'urlenc': ('body', 'forms'), 'json': ('body', 'json'),
+    touch = {'raw': ('body', 'copy_body'), 'urlenc': ('body', 'forms'), 'json': ('body', 'json'),
              'mp_text': ('body', 'forms'), 'mp_file': ('body', 'files'), 'mp_multi': ('body', 'forms')}[ptype]
     if chunked and case.get('cl_too') is not None:
         cl = case['cl_too']
@@ -279,6 +279,9 @@ def _run_case(case):
             else:
                 if o.seen.get('body') != body:
                     violation(res, 'C13:content-differs', f'accepted body differs from what was sent ({len(o.seen.get("body") or b"")} vs {size} bytes)')
+                if size > B and 'copy_body_spilled' in o.seen and not o.seen['copy_body_spilled']:
+                    violation(res, 'C13:copy-not-spilled',
+                              f'request.copy().body of a {size}-byte body (max_memfile_size={B}) is held in memory, not in the temp file')
                 if size > B and not o.seen.get('body_spilled'):
                     violation(res, 'C13:not-spilled',
                               f'body of {size} bytes > max_memfile_size={B} is held in {o.seen.get("body_type")} (not the temp file)')
